@@ -170,7 +170,7 @@ def case_post(B, cfg):
              tol=1e-6)
         for k in range(n):
             B.eq('d(value - reference)/d x%d = 0  [%s]' % (k, full[k]),
-                 d, const, tol=1e-6)
+                 d - const, 0.0, tol=1e-6)
     # gradient
     try:
         score, sens = post.evaluateS1(xa)
